@@ -555,7 +555,19 @@ Proof.
     + rewrite orb_false_r. apply Hinv.
 Qed.
 
-Definition bump (c : call) : N := if is_problem c then 1%N else 0%N.
+Lemma msg_step : forall v st earlier c, once_inv st earlier ->
+  violations (msg v st c) =
+    (violations st + N.of_nat (length (filter is_problem (if suppressed earlier c then [] else [c]))))%N /\
+  printed (msg v st c) =
+    printed st ++ map c_msg (filter (visible v) (if suppressed earlier c then [] else [c])).
+Proof.
+  intros v st earlier c Hinv. pose proof (suppressed_model st earlier c Hinv) as Hs. unfold msg. rewrite Hs.
+  destruct (suppressed earlier c).
+  - cbn. rewrite N.add_0_r, app_nil_r. split; reflexivity.
+  - cbn [violations printed filter]. unfold is_problem, visible.
+    destruct (c_thresh c <? 0); destruct ((c_thresh c <=? v) && (v <=? c_topthresh c))%bool;
+      cbn [length map N.of_nat]; rewrite ?app_nil_r; split; try reflexivity; lia.
+Qed.
 
 Lemma msgs_effective : forall v cs st earlier, once_inv st earlier ->
   violations (msgs v st cs) = (violations st + N.of_nat (length (filter is_problem (effective earlier cs))))%N /\
@@ -565,12 +577,8 @@ Proof.
   - cbn. rewrite N.add_0_r, app_nil_r. split; reflexivity.
   - unfold msgs in *. cbn [fold_left effective].
     destruct (IH (msg v st c) (earlier ++ [c]) (once_inv_step v st earlier c Hinv)) as [IHv IHp].
-    rewrite IHv, IHp. pose proof (suppressed_model st earlier c Hinv) as Hs. unfold msg at 2 4.
-    rewrite Hs. destruct (suppressed earlier c); cbn [app].
-    + split; reflexivity.
-    + cbn [violations printed filter]. unfold is_problem at 2, visible at 2.
-      destruct (c_thresh c <? 0); destruct ((c_thresh c <=? v) && (v <=? c_topthresh c))%bool;
-        cbn [length map]; rewrite <- ?app_assoc; cbn [app]; split; try reflexivity; lia.
+    destruct (msg_step v st earlier c Hinv) as [Sv Sp].
+    rewrite IHv, IHp, Sv, Sp. rewrite !filter_app, map_app, !app_length, <- app_assoc. split; [lia|reflexivity].
 Qed.
 
 Lemma once_inv_init : forall st, once_msgs st = [] -> once_inv st [].
@@ -594,7 +602,7 @@ Qed.
 (* a report() is never once=True: it always counts when thresh < 0, whatever the verbosity *)
 Lemma report_counts : forall v st o descr section off thresh,
   violations (report v st o descr section off thresh) =
-    (violations st + (if thresh <? 0 then 1 else 0))%N.
+    (violations st + (if (thresh <? 0)%Z then 1 else 0))%N.
 Proof.
   intros. unfold report, msg, report_call. cbn [c_once andb c_thresh violations].
   destruct (thresh <? 0); lia.
@@ -636,10 +644,19 @@ Proof.
   intros v wae h st pe. unfold main_tail, exit_status_spec.
   destruct (nonempty (pe_lookup sec_docstring pe)) eqn:Hd.
   - rewrite (lookup_nonempty_some _ _ Hd).
-    set (st1 := msgs v st _). rewrite andb_comm.
-    destruct (wae && negb (violations st1 =? 0)%N)%bool; reflexivity.
-  - fold (some_parse_error pe). rewrite andb_comm.
-    destruct (some_parse_error pe); destruct (wae && negb (violations st =? 0)%N)%bool; reflexivity.
+    set (st1 := msgs v st _). rewrite (andb_comm wae).
+    destruct (negb (violations st1 =? 0)%N && wae)%bool eqn:E; cbn [fst snd]; rewrite E; reflexivity.
+  - fold (some_parse_error pe). rewrite (andb_comm wae).
+    destruct (some_parse_error pe); destruct (negb (violations st =? 0)%N && wae)%bool eqn:E; cbn [fst snd];
+      rewrite E; reflexivity.
+Qed.
+
+Lemma summary_msgs_violations : forall v ms st,
+  violations (msgs v st (map summary_call ms)) = (violations st + N.of_nat (length ms))%N.
+Proof.
+  intros v. induction ms as [|m ms IH]; intros st; [cbn; lia|].
+  unfold msgs in *. cbn [map fold_left length]. rewrite IH. unfold msg, summary_call.
+  cbn [c_once andb c_thresh violations Z.ltb Z.compare]. lia.
 Qed.
 
 Lemma main_tail_violations : forall v wae h st pe,
@@ -649,16 +666,186 @@ Lemma main_tail_violations : forall v wae h st pe,
 Proof.
   intros v wae h st pe. unfold main_tail.
   destruct (nonempty (pe_lookup sec_docstring pe)) eqn:Hd.
-  - set (cs := summary_call h :: _).
-    assert (Hv : forall st0, violations (msgs v st0 cs) = (violations st0 + N.of_nat (length cs))%N).
-    { clear. unfold cs. clear cs. generalize (summary_call h :: map (fun fn => summary_call ([32; 32; 32; 32]%N ++ fn))
-                                               (pe_lookup sec_docstring pe)) as cs.
-      intros cs. assert (Hall : Forall (fun c => c_once c = false /\ c_thresh c = -1) cs -> forall st0,
-        violations (msgs v st0 cs) = (violations st0 + N.of_nat (length cs))%N).
-      { induction cs as [|c cs IH]; intros HF st0; [cbn; lia|]. inversion HF as [|? ? [Ho Ht] HF']; subst.
-        unfold msgs in *. cbn [fold_left length]. rewrite (IH HF'). unfold msg. rewrite Ho, Ht. cbn. lia. }
-      intros st0. apply Hall. (* every summary call is a plain problem message *)
-      admit_placeholder. }
-    admit_placeholder.
+  - change (summary_call h :: map (fun fn => summary_call ([32; 32; 32; 32]%N ++ fn)) (pe_lookup sec_docstring pe))
+      with (summary_call h :: map (fun fn => summary_call ((fun x => [32; 32; 32; 32]%N ++ x) fn)) (pe_lookup sec_docstring pe)).
+    rewrite <- (map_map (fun x => [32; 32; 32; 32]%N ++ x) summary_call).
+    change (summary_call h :: map summary_call ?l) with (map summary_call (h :: l)).
+    set (ms := h :: _). pose proof (summary_msgs_violations v ms st) as Hv.
+    destruct (negb _ && wae)%bool; cbn [snd]; rewrite Hv; unfold ms; cbn [length]; rewrite map_length; unfold text in *; lia.
   - destruct (existsb _ pe); destruct (negb _ && wae)%bool; cbn [snd]; lia.
 Qed.
+
+(* reportErrors keeps: some parse error recorded -> at least one problem counted *)
+Definition counted_inv (st : sys_state) (pe : parse_errors) : Prop :=
+  some_parse_error pe = true -> violations st <> 0%N.
+
+Lemma some_parse_error_add : forall sec name pe, some_parse_error (pe_add sec name pe) = true.
+Proof.
+  intros sec name. induction pe as [|[s names] pe IH]; [reflexivity|].
+  unfold some_parse_error in *. cbn [pe_add]. destruct (text_eqb s sec); cbn [existsb snd].
+  - destruct names; reflexivity.
+  - rewrite IH. apply orb_true_r.
+Qed.
+
+Lemma fold_report_violations : forall v o section errs st,
+  violations (fold_left (fun s e => report v s o (bad_prefix section ++ pe_descr e) section (perr_offset e) (-1)) errs st)
+  = (violations st + N.of_nat (length errs))%N.
+Proof.
+  intros v o section. induction errs as [|e errs IH]; intros st; [cbn; lia|].
+  cbn [fold_left length]. rewrite IH. rewrite report_counts. cbn. lia.
+Qed.
+
+Lemma report_errors_inv : forall v st pe o errs section,
+  counted_inv st pe -> counted_inv (fst (report_errors v st pe o errs section)) (snd (report_errors v st pe o errs section)).
+Proof.
+  intros v st pe o errs section Hinv. unfold report_errors. destruct errs as [|e errs]; [exact Hinv|].
+  destruct (existsb _ _); [exact Hinv|]. cbn [fst snd]. intros _. rewrite fold_report_violations. cbn [length]. lia.
+Qed.
+
+Lemma report_problem_inv : forall v st pe o p,
+  counted_inv st pe -> counted_inv (fst (report_problem v st pe o p)) (snd (report_problem v st pe o p)).
+Proof.
+  intros v st pe o [d stored|m l|m l] Hinv; cbn [report_problem].
+  - apply report_errors_inv. exact Hinv.
+  - cbn [fst snd]. intros H. unfold field_report. rewrite report_counts. cbn. lia.
+  - cbn [fst snd]. intros H. unfold xref_report. rewrite report_counts. cbn. lia.
+Qed.
+
+Lemma run_problems_inv : forall v o ps, counted_inv (fst (run_problems v o ps)) (snd (run_problems v o ps)).
+Proof.
+  intros v o ps. unfold run_problems.
+  assert (H : forall sp, counted_inv (fst sp) (snd sp) ->
+              counted_inv (fst (fold_left (fun sp p => report_problem v (fst sp) (snd sp) o p) ps sp))
+                          (snd (fold_left (fun sp p => report_problem v (fst sp) (snd sp) o p) ps sp))).
+  { induction ps as [|p ps IH]; intros sp Hsp; [exact Hsp|]. cbn [fold_left]. apply IH. apply report_problem_inv. exact Hsp. }
+  apply H. intros Hc. discriminate.
+Qed.
+
+(* the exit status in terms of what was counted BEFORE the summary is printed *)
+Lemma exit_iff : forall v wae h st pe, counted_inv st pe ->
+  fst (main_tail v wae h st pe) = exit_status_spec wae (violations st) (some_parse_error pe).
+Proof.
+  intros v wae h st pe Hinv. rewrite main_tail_status. rewrite main_tail_violations. unfold exit_status_spec.
+  destruct (nonempty (pe_lookup sec_docstring pe)) eqn:Hd.
+  - pose proof (Hinv (lookup_nonempty_some _ _ Hd)) as Hv.
+    assert (E1 : (violations st =? 0)%N = false) by (apply N.eqb_neq; exact Hv).
+    assert (E2 : (violations st + (1 + N.of_nat (length (pe_lookup sec_docstring pe))) =? 0)%N = false)
+      by (apply N.eqb_neq; lia).
+    rewrite E1, E2. reflexivity.
+  - rewrite N.add_0_r. reflexivity.
+Qed.
+
+Lemma one_run_status : forall v wae h o ps,
+  fst (one_run v wae h o ps) =
+    exit_status_spec wae (violations (fst (run_problems v o ps))) (some_parse_error (snd (run_problems v o ps))).
+Proof.
+  intros v wae h o ps. unfold one_run. pose proof (run_problems_inv v o ps) as Hinv.
+  destruct (run_problems v o ps) as [st pe]. cbn [fst snd] in *. apply exit_iff. exact Hinv.
+Qed.
+
+(* ================================================================================================ *)
+(* 5. statements in the shape Props/C16.v exports                                                    *)
+(* ================================================================================================ *)
+Lemma offset_bases : forall ds ln off m,
+  ds <> 0 ->
+  (forall d z, 0 <= z ->
+     report_line sec_docstring ds ln (perr_offset {| pe_descr := d; pe_stored := Some z |}) m = Num (ds + z)) /\
+  (forall d, report_line sec_docstring ds ln (perr_offset {| pe_descr := d; pe_stored := None |}) m = Num ds) /\
+  report_line sec_docstring ds ln off m = Num (ds + off) /\
+  field_attr_lineno ds off = ds + off /\
+  report_line sec_xref ds ln off m = Num (ds + off) /\
+  (forall section, uses_docstring_base section = false -> ln <> 0 ->
+     report_line section ds ln off m = Num (ln + off)).
+Proof.
+  intros ds ln off m Hds. repeat split.
+  - intros d z Hz. rewrite (perr_offset_zero_based d z Hz).
+    apply report_line_docstring_sections; [reflexivity|exact Hds].
+  - intros d. rewrite perr_offset_unknown. rewrite (report_line_docstring_sections sec_docstring ds ln 0 m eq_refl Hds).
+    f_equal. lia.
+  - apply report_line_docstring_sections; [reflexivity|exact Hds].
+  - apply report_line_docstring_sections; [reflexivity|exact Hds].
+  - intros section Hs Hln. apply report_line_other_sections; assumption.
+Qed.
+
+(* what the three reporting paths print, for an object whose docstring line is set *)
+Lemma reports_print : forall v st o m l, -1 <= v <= 100 -> o_docstring_lineno o <> 0 ->
+  printed (field_report v st o m l) =
+    printed st ++ [report_text (o_description o) (Num (o_docstring_lineno o + l)) m] /\
+  printed (xref_report v st o m l) =
+    printed st ++ [report_text (o_description o) (Num (o_docstring_lineno o + l)) m] /\
+  (forall pe d z, 0 <= z -> existsb (text_eqb (o_fullname o)) (pe_lookup sec_docstring pe) = false ->
+     printed (fst (report_errors v st pe o [{| pe_descr := d; pe_stored := Some z |}] sec_docstring)) =
+       printed st ++ [report_text (o_description o) (Num (o_docstring_lineno o + z)) (bad_prefix sec_docstring ++ d)]).
+Proof.
+  intros v st o m l Hv Hds. repeat split.
+  - unfold field_report. rewrite report_printed by lia.
+    rewrite (report_line_docstring_sections sec_docstring _ _ _ _ eq_refl Hds). reflexivity.
+  - unfold xref_report. rewrite report_printed by lia.
+    rewrite (report_line_docstring_sections sec_xref _ _ _ _ eq_refl Hds). reflexivity.
+  - intros pe d z Hz Hnew. unfold report_errors. rewrite Hnew. cbn [fst fold_left].
+    rewrite report_printed by lia. rewrite (perr_offset_zero_based d z Hz).
+    rewrite (report_line_docstring_sections sec_docstring _ _ _ _ eq_refl Hds). reflexivity.
+Qed.
+
+Lemma counting_ignores_verbosity : forall v1 v2 cs st, once_msgs st = [] ->
+  violations (msgs v1 st cs) = violations (msgs v2 st cs).
+Proof. intros v1 v2 cs st H. rewrite !every_problem_counted by exact H. reflexivity. Qed.
+
+(* every problem message that reaches stdout has been counted *)
+Lemma printed_problems_counted : forall v cs st, once_msgs st = [] ->
+  (N.of_nat (length (filter is_problem (filter (visible v) (effective [] cs)))) <= violations (msgs v st cs) - violations st)%N.
+Proof.
+  intros v cs st H. rewrite (every_problem_counted v cs st H). unfold problems.
+  pose proof (filter_filter_le is_problem (visible v) (effective [] cs)). lia.
+Qed.
+
+Lemma exit_iff_cases : forall v wae h st pe, counted_inv st pe ->
+  (wae = true -> (fst (main_tail v wae h st pe) = 3 <-> (1 <= violations st)%N)) /\
+  (wae = false -> (fst (main_tail v wae h st pe) = 2 <-> some_parse_error pe = true) /\
+                  (fst (main_tail v wae h st pe) = 0 <-> some_parse_error pe = false)).
+Proof.
+  intros v wae h st pe Hinv. rewrite (exit_iff v wae h st pe Hinv). unfold exit_status_spec. split.
+  - intros ->. cbn [andb]. destruct (violations st =? 0)%N eqn:E; cbn [negb].
+    + apply N.eqb_eq in E. destruct (some_parse_error pe); split; intros H; try discriminate; lia.
+    + apply N.eqb_neq in E. split; [intros _; lia|reflexivity].
+  - intros ->. cbn [andb]. destruct (some_parse_error pe); split; split; intros H; try discriminate; reflexivity.
+Qed.
+
+(* one problem of each kind, default verbosity: counted once; status 3 with -W, else 2 iff it is a parse error *)
+Lemma one_problem_status : forall v wae h o p,
+  violations (fst (run_problems v o [p])) = 1%N /\
+  fst (one_run v wae h o [p]) =
+    if wae then 3 else match p with PParse _ _ => 2 | _ => 0 end.
+Proof.
+  intros v wae h o p. rewrite one_run_status. unfold run_problems. cbn [fold_left fst snd].
+  destruct p as [d stored|m l|m l]; cbn [report_problem].
+  - unfold report_errors. cbn [pe_lookup existsb fst snd fold_left]. rewrite report_counts. cbn [pe_add].
+    split; [reflexivity|]. destruct wae; reflexivity.
+  - cbn [fst snd]. unfold field_report. rewrite report_counts. split; [reflexivity|]. destruct wae; reflexivity.
+  - cbn [fst snd]. unfold xref_report. rewrite report_counts. split; [reflexivity|]. destruct wae; reflexivity.
+Qed.
+
+(* the refuted witness: "\n      \n  text" *)
+Definition w_doc : text := [10; 32;32;32;32;32;32; 10; 32;32;116;101;120;116]%N.
+
+Lemma alignment_refuted :
+  ~ (forall (s : text) (n0 : Z) (i : nat),
+       has_content s = true -> (i < length (cleandoc_lines s))%nat ->
+       exists j : nat,
+         (linenum_of_docstring false n0 s + Z.of_nat i)%Z = phys_line n0 j /\
+         nth_error (cleandoc_lines s) i = clean_line_of_value_line s j).
+Proof.
+  intros H. assert (Hl : (0 < length (cleandoc_lines w_doc))%nat) by (vm_compute; lia).
+  destruct (H w_doc 0 0%nat eq_refl Hl) as [j [Hj Hn]].
+  assert (j = 2%nat).
+  { unfold phys_line in Hj. change (linenum_of_docstring false 0 w_doc) with 2 in Hj. lia. }
+  subst j. vm_compute in Hn. discriminate.
+Qed.
+
+(* and by how much: the loop says 2 lines were dropped, cleandoc dropped 1 *)
+Lemma alignment_refuted_by_one :
+  leading_ws_fit w_doc = false /\
+  linenum_of_docstring false 0 w_doc = 2 /\
+  nth_error (cleandoc_lines w_doc) 0 = clean_line_of_value_line w_doc 1 /\
+  nth_error (cleandoc_lines w_doc) 1 = clean_line_of_value_line w_doc 2.
+Proof. vm_compute. repeat split. Qed.
